@@ -158,7 +158,8 @@ pub mod checks {
         let same_seq = gs == ws;
         gs.sort(); ws.sort();
         let detail = || json!({"observed": gp.iter().map(|x| x.1.clone()).collect::<Vec<_>>(), "expected": wp.iter().map(|x| x.1.clone()).collect::<Vec<_>>()});
-        let g = rep.group.clone();
+        // evaluations over the second Queryable implementation are reported under their own obligation names (C15)
+        let g = if tag == "serde_json::Value" { rep.group.clone() } else { format!("{}.second_impl", rep.group) };
         if gs != ws {
             // same set of nodes but different multiplicities: duplicates lost or invented (C02); otherwise wrong nodes (C01)
             let (mut gd, mut wd) = (gs.clone(), ws.clone());
